@@ -406,6 +406,85 @@ theorem write_last (hcl : TextBlind w.ctl E) (hwf : WfChunkWith w.tbl fs = true)
         rw [hls, hpc]
         exact hl'
 
+theorem unclean_of_epanic {r : Except Err Unit} (h : EPanic r) : Unclean r := by
+  cases r with
+  | ok u => exact h.elim
+  | error e => cases e <;> first | exact h.elim | exact Or.inl ⟨_, rfl⟩
+
+theorem end_eq (S : Stream γ) :
+    S.end w =
+      (let chunk : Bytes := S.pending
+       let pr := S.parser.parse w.env chunk true
+       let s : Stream γ := { S with parser := pr.1 }
+       match pr.2 with
+       | .error e => (s.bail w e [chunk], .error e)
+       | .ok _ =>
+         let r := s.disp.finish w.ctl chunk
+         (s.setDisp r.1, r.2)) := rfl
+
+/-- **`end` in the two runs.** -/
+theorem end_sim (hcl : TextBlind w.ctl E) (hwf : WfChunkWith w.tbl fs = true) {X : Bytes} {S W : Stream γ} {mid : Bytes} {d : Nat}
+    (hpend : W.pending = mid ++ S.pending) (hmid : mid.length = d)
+    (hprel : PRelM w.tbl fs X d d 0 S.parser (S.parser.machine false) W.parser (W.parser.machine false))
+    (hK : DK w.ctl E [] W.pending d d S.disp W.disp) (hr : S.disp.rcs = 0)
+    (hloc : 0 < d → DLoc S.disp S.parser.x.prevConsumed (lexStart (S.parser.machine false).r)
+      (S.parser.machine false).c.lastTextType) :
+    Unclean (S.end w).2 ∨ Unclean (W.end w).2 ∨
+    ((W.end w).2 = (S.end w).2 ∧
+      ((S.end w).2 = .ok () → sinkBytes (W.end w).1.disp.sink = sinkBytes (S.end w).1.disp.sink ∧
+        E (S.end w).1.disp.ctl (W.end w).1.disp.ctl)) := by
+  have F : Frame S.pending W.pending d := ⟨mid, [], hmid, by rw [hpend]; simp⟩
+  have hclosed : Closed S.pending W.pending d := by
+    unfold Closed; rw [hpend, List.length_append, hmid]; omega
+  have hprS := pruns_of_parse (env := w.env) (inp := S.pending) (last := true) S.parser
+  have hprW := pruns_of_parse (env := w.env) (inp := W.pending) (last := true) W.parser
+  rw [end_eq S, end_eq W]
+  simp only []
+  generalize S.parser.parse w.env S.pending true = prS at hprS ⊢
+  generalize W.parser.parse w.env W.pending true = prW at hprW ⊢
+  obtain ⟨psE, rsE⟩ := prS
+  obtain ⟨pwE, rwE⟩ := prW
+  simp only [] at hprS hprW ⊢
+  rcases hprS with hprS | ⟨m, hm⟩
+  rotate_left
+  · left; rw [hm]; exact Or.inl ⟨m, rfl⟩
+  rcases hprW with hprW | ⟨m, hm⟩
+  rotate_left
+  · right; left; rw [hm]; exact Or.inl ⟨m, rfl⟩
+  have hsink : (S.parser.machine true).x.sink = S.disp := by rw [machine_x]; rfl
+  have hsinkW : (W.parser.machine true).x.sink = W.disp := by rw [machine_x]; rfl
+  have hK' : DK w.ctl E S.pending W.pending d d (S.parser.machine true).x.sink (W.parser.machine true).x.sink := by
+    rw [hsink, hsinkW]; exact hK.congr_inpS (by rw [hr]; exact Nat.zero_le _)
+  have hloc' : 0 < d → DLoc (S.parser.machine true).x.sink (S.parser.machine true).x.prevConsumed
+      (lexStart (S.parser.machine true).r) (S.parser.machine true).c.lastTextType := by
+    intro hd; rw [hsink, machine_x, machine_r _ true false, machine_ltt _ true false]; exact hloc hd
+  rcases plock (env := w.env) F hclosed (dispOps_sim F hcl) hwf true hprS (hprel.congr_inpW.last) (machine_isLast _ _) hK' hloc' with
+    ⟨m, hm⟩ | ⟨pw', rw', hpw, hres⟩
+  · left; rw [hm]; exact Or.inl ⟨m, rfl⟩
+  obtain ⟨e1, e2⟩ := hpw.det hprW
+  subst e1 e2
+  cases rsE with
+  | error e =>
+    cases rw' with
+    | ok c' => exact hres.elim
+    | error e' =>
+      have : e' = e := hres
+      subst this
+      exact Or.inr (Or.inr ⟨rfl, fun h => by cases h⟩)
+  | ok c0 =>
+    cases rw' with
+    | error e' => exact hres.elim
+    | ok c' =>
+      obtain ⟨d', _, hKb, _, hd0, _⟩ := hres
+      have := hd0 rfl
+      subst this
+      have hk0 := DK_zero.1 hKb
+      rcases finish_sim F hclosed hcl hk0 with hp | ⟨h1, h2⟩
+      · left
+        exact unclean_of_epanic hp
+      · right; right
+        exact ⟨h1, fun hok => h2 hok⟩
+
 end
 
 end LolHtml.Model.Chunk
